@@ -6,7 +6,7 @@ OPS = ["Add", "RemoveForward", "RemoveReverse", "Clear", "Clone"]
 
 
 def execute(run, plans):
-    return split_segments(run_driver(run, "bimap", [c for p in plans for c in p]))
+    return run_plans(run, "bimap", plans)
 
 
 def check(run):
@@ -85,6 +85,7 @@ def check(run):
     segs = execute(run, plans)
     if len(segs) != len(plans):
         raise Inconclusive("driver returned %d segments for %d plans" % (len(segs), len(plans)))
+    plans, segs = drop_crashed(plans, segs)
     conf = conformance(plans, segs, ["x"])
     validate(run, "bimap", "BimapAbsTrace", {}, segs, CLAUSES, plans=plans)
     run.cov.update(tour=st, conformance=conf, exhaustive=st["edges_covered"] == st["edges_total"],
@@ -98,6 +99,6 @@ def check(run):
 
 
 def replay(run, rp):
-    segs = execute(run, [rp["plan"]])
+    segs = [sg for sg in execute(run, [rp["plan"]]) if sg is not None]
     validate(run, "bimap", "BimapAbsTrace", {}, segs, CLAUSES, plans=[rp["plan"]])
     return finish(run, reexec=lambda rej: execute(run, [rej["plan"]])[0])
